@@ -52,7 +52,7 @@ class Holds(Matcher):
 
 GROUPS = {
     "hql": ["STORED_AS", "LOCATION", "ROW_FORMAT", "ROW_FORMAT_SERDE", "FIELDS_TERMINATED", "TBLPROPERTIES", "PARTITIONED_BY",
-            "CLUSTERED_BY", "CLUSTERED_BY_2", "INTO_BUCKETS", "COMMENT"],
+            "CLUSTERED_BY", "CLUSTERED_BY_2", "INTO_BUCKETS", "COMMENT", "COMMENT_ESC"],
     "mysql": ["ENGINE", "DEFAULT_CHARSET", "AUTO_INCREMENT", "COMMENT_EQ"],
     "oracle": ["TABLESPACE", "STORAGE", "ORGANIZATION_INDEX"],
     "redshift": ["DISTSTYLE", "DISTKEY"],
@@ -83,6 +83,7 @@ def build(ctx, group="hql", tier="quick", only=None, final=None, final_modes=Non
     val2 = pl("val2", ["x", "y1", "Zed", "q_2", "something", "V2"])
     kwcol = "KWCOL"     # placeholder: one edge per keyword-shaped column name (see below)
     s1 = lm.custom("'s1'", ["'a'", "'Hello'", "'/path/x'", "'it_s'", "'k.1'", "'p = q . r'"], "STR")
+    s_esc = lm.custom("'s\\'s'", ["'customer\\pars_m_singles orders'", "'it\\pars_m_singles'", "'a\\pars_m_singleb'"], "STR")
     s2 = lm.custom("'s2'", ["'b'", "'World'", "'/other/y'", "'v_s'", "'v.2'", "'C d'"], "STR")
     # body: CREATE TABLE t ( a type NOT NULL , b type ( n ) )
     a = s.words(s.start, "head", [("KW", "CREATE"), ("KW", "TABLE"), (t, "name")])
@@ -107,6 +108,9 @@ def build(ctx, group="hql", tier="quick", only=None, final=None, final_modes=Non
         "CLUSTER_BY_2": ("cluster_by", [("KW", "CLUSTER"), ("KW", "BY"), P["("], (ca, "k"), P[","], (kwcol, "v"), P[")"]]),
         "INTO_BUCKETS": ("into_buckets", [("KW", "INTO"), (N["NUM"], "v"), (pl("BUCKETS", ["BUCKETS", "buckets", "Buckets"]), None)]),
         "COMMENT": ("comment", [("KW", "COMMENT"), (s1, "v")]),
+        # a literal with an escaped quote as the line pre-processor hands it over (placeholder in place of the quote): the action
+        # must put the quote back
+        "COMMENT_ESC": ("comment", [("KW", "COMMENT"), (s_esc, "vesc")]),
         "ENGINE": ("engine", [("KW", "ENGINE"), P["="], (val, "v")]),
         "DEFAULT_CHARSET": ("default_charset", [("KW", "DEFAULT"), (lm.custom("CHARSET", ["CHARSET"], "WORD"), None), P["="], (val, "v")]),
         "AUTO_INCREMENT": ("auto_increment", [(lm.custom("AUTO_INCREMENT", ["AUTO_INCREMENT", "auto_increment", "Auto_Increment"], "AUTOINC"), None), P["="], (N["NUM"], "v")]),
@@ -190,6 +194,8 @@ def clause_expect(key):
             vals = [lift(int, roles["vint"])]
         if "vbool" in roles:
             vals = [True]
+        if "vesc" in roles:
+            vals = [lift(lambda x: x.replace("pars_m_single", "'"), roles["vesc"])]
         for i, k in enumerate(keys):
             if len(keys) > 1:
                 new[k] = Holds([roles.get(("v", "v2")[i])])
